@@ -15,6 +15,7 @@ import (
 	"net"
 	"os"
 	"path/filepath"
+	"sync/atomic"
 	"time"
 )
 
@@ -32,13 +33,12 @@ func (p *Pair) KeyPEM() []byte {
 	return pem.EncodeToMemory(&pem.Block{Type: "EC PRIVATE KEY", Bytes: b})
 }
 
-var serial int64 = 1000
+var serial atomic.Int64
 
 func mint(cn string, parent *Pair, isCA bool, notBefore, notAfter time.Time, server bool) *Pair {
 	key, _ := ecdsa.GenerateKey(elliptic.P256(), rand.Reader)
-	serial++
 	tmpl := &x509.Certificate{
-		SerialNumber:          big.NewInt(serial),
+		SerialNumber:          big.NewInt(1000 + serial.Add(1)),
 		Subject:               pkix.Name{CommonName: cn, Organization: []string{"verif"}},
 		NotBefore:             notBefore,
 		NotAfter:              notAfter,
